@@ -53,7 +53,11 @@ type schedScn struct {
 func runSched(t *testing.T, s schedScn) (x nExec) {
 	ch := &chooser{prefix: s.Prefix}
 	res := inBubble(t, func(b *bubble) {
-		nd, err := newNode("o", ip4(1), func(c *ml.Config) { c.ProbeTimeout = 200 * time.Millisecond; c.IndirectChecks = 0; c.DisableTcpPings = true })
+		nd, err := newNode("o", ip4(1), func(c *ml.Config) {
+			c.ProbeTimeout = 200 * time.Millisecond
+			c.IndirectChecks = 0
+			c.DisableTcpPings = true
+		})
 		must(err)
 		o := b.track(nd)
 		advance(time.Microsecond)
